@@ -849,6 +849,14 @@ def py_loads(l):
     return v if isinstance(v, str) else ["not a str"]
 
 
+def py_scan(text):
+    try:
+        v, end = json.decoder.scanstring(text, 1)
+    except (json.JSONDecodeError, RecursionError):
+        return None
+    return (v, text[end:])
+
+
 def decode_extract(m):
     return safe_call(lambda: (unS(m[0]), [dep_canon(dep_from_payload(unS(p))) for p in m[1]]))
 
@@ -1090,6 +1098,12 @@ def run(ctx: Ctx) -> None:
         lits.append('"' + "".join(rng.choice(lfr) for _ in range(rng.randrange(0, 6))) + '"')
     lits += ['"', '""', '"\\', '"\\u', '"\\u00', '"\\ud83d\\ude0', '"\\ud83d\\ude00', 'x', '', '"a"b"']
     batch.add("dec", [[3, S(s)] for s in lits])
+    # ---- B2': json.decoder.scanstring at an opening quote, with arbitrary text after the literal ---
+    tails = ['', ': "v"}', ', "k": null}', '</script>', '"', '\\', ' ', '<\\/a', ']', '\n  "next": "<\\/script>"']
+    scans = [l + rng.choice(tails) for l in lits[::max(1, len(lits) // ctx.budget(1500, 20000))] if l.startswith('"')]
+    scans += ['"' + "".join(rng.choice(lfr) for _ in range(rng.randrange(0, 5))) + '"' + hostile(rng, 3)
+              for _ in range(ctx.budget(800, 20000))]
+    batch.add("scan", [[10, S(s)] for s in scans])
 
     # ---- the Coq specification functions used as oracles ---------------------------------------
     probes = [hostile(rng, 4) for _ in range(ctx.budget(500, 10000))] + \
@@ -1324,6 +1338,9 @@ def run(ctx: Ctx) -> None:
     diff(ctx, "json.loads(string literal) vs json_str_dec", lits, batch.get("dec"),
          impl=py_loads, decode=lambda m: None if m == [] else unS(m[0]),
          nontrivial=lambda l: "\\" in l, kind=lambda s: "string literal for json.loads")
+    diff(ctx, "json.decoder.scanstring(text, 1) vs read_string", scans, batch.get("scan"),
+         impl=py_scan, decode=lambda m: None if m == [] else (unS(m[0][0]), unS(m[0][1])),
+         nontrivial=lambda l: "\\" in l and not l.endswith('"'), kind=lambda s: "string literal followed by text")
     ctx.obligation(f"Coq has_close_tag == the oracle's '</script' test ({len(probes)} strings)",
                    all(bool(a) == spec_has_close_tag(s) for a, s in zip(batch.get("hct"), probes)))
     ctx.obligation("Coq stable_unique == the oracle's first-occurrences (300 lists)",
